@@ -426,7 +426,7 @@ def unlean_str(s):
         return s
     out, i = [], 0
     while i < len(s):
-        if s[i] == ESC:
+        if s[i] == ESC and len(s) >= i + 5 and all(ch in "0123456789abcdef" for ch in s[i + 1:i + 5]):
             out.append(chr(int(s[i + 1:i + 5], 16)))
             i += 5
         else:
